@@ -63,3 +63,8 @@ claim("C16",
  "Static, for every sequence of management operations: decides that the nil-able master builder is never used without a dominating (path-sensitive) nil test or re-creation, that master and instances are updated together under updateLock with the cleared flag maintained, that the rule queries read the master under the lock and honour the flag, that all 24 execute methods run nothing on a cleared pool, that the execution-model validation and the 4x3 dispatch table are exact and every other pool method forwards to the engine method of the same name with arguments in place, and that all instances in [0,max) are covered. Right level: 'no sequence panics' and 'instances follow the master' are reachability/shape facts about the management code.",
  "Trusted: go/types + go/ssa. Not decided: equality of query answers with the denoted set over histories (inherits the undecided algebra of C08). PluginLoader (outside the property's operation list) is exempt.",
  "path-sensitive nil-guard analysis, sibling/table cross-check of dispatchers, lockset and loop-bound rules over go/ssa")
+
+claim("C19",
+ "Static lockset analysis over gengine's own shared state: one obligation per (shared field, accessing function, read/write) against a guarded-by table whose completeness is checked on every run (every field of the engine, builder, context and iter packages that is stored to after construction must be listed). Obligations are discharged by the guarding mutex held at the access (must-hold dataflow, deferred unlocks, one-level caller summaries), by construction, by immutability after construction, by ownership between pop and put, or by a local mutex for variables written inside goroutines. The 49 undischarged obligations of today's tree are exactly the recorded findings D12(b) (gp.clear / gp.execModel read by the request path without updateLock) and D12(c) (executions read the published RuleBuilder.Kc pointer without synchronisation); they are printed as KNOWN-FINDING and any other unguarded access is a VIOLATION. Right level: the race detector samples schedules; a lockset argument covers all of them.",
+ "Trusted: go/types + go/ssa, Go memory model edges for mutex/go/WaitGroup. Sound w.r.t. the table; the table's completeness is checked structurally (stored fields), not proved. Not decided: races on host data reached through injected pointers. D12(b)/(c) are NOT claimed to hold.",
+ "must-hold lockset dataflow (A5) with guarded-by table + table-completeness check, who-may-write (immutability) analysis, captured-variable write check in goroutine literals, over go/ssa")
